@@ -13,6 +13,8 @@ def main():
     ap.add_argument("--replay", default=None)
     ap.add_argument("--seed", type=int, default=int(os.environ.get("VERIF_SEED", "0")))
     a = ap.parse_args()
+    if a.prop == "--setup" or a.prop == "setup":
+        sys.exit(common.setup_all())
     mod = importlib.import_module("harness." + a.prop.lower())
     sys.exit(common.run_check(mod, a.tier, a.seed, a.replay))
 
